@@ -92,7 +92,16 @@ structure Arr where
   size : Nat := 0
 deriving Repr
 
+/-- the number of items a node container of each kind allocates at once when its free list is empty
+    (`new char[sizeof(ItemBlock) + sizeof(Item) * N]`, threaded into the free list by a loop with the same bound N);
+    taken from the sources by the translator (`Nstd/Generated/LifeConst.lean`); every theorem holds for every such
+    table with N ≥ 1 -/
+structure Per where
+  f : Kind → Nat
+  pos : ∀ k, 1 ≤ f k
+
 structure State where
+  per : Per
   next : Nat
   mem : Loc → Option Nat
   blk : Nat → Option Nat
@@ -225,12 +234,14 @@ def allocData (st : State) (c : Var) : State :=
 
 /-- the free list threaded through a new block: HashMap/HashSet take slot 0 and push 1,2,3;
     the others push 0..3 and pop 3 -/
-def newSlots (k : Kind) (b : Nat) : List Item :=
-  if k.hashOrder then [⟨b, 0⟩, ⟨b, 3⟩, ⟨b, 2⟩, ⟨b, 1⟩] else [⟨b, 3⟩, ⟨b, 2⟩, ⟨b, 1⟩, ⟨b, 0⟩]
+def newSlots (n : Nat) (k : Kind) (b : Nat) : List Item :=
+  if k.hashOrder then ⟨b, 0⟩ :: (List.range (n - 1)).map fun j => ⟨b, n - 1 - j⟩
+  else (List.range n).map fun j => ⟨b, n - 1 - j⟩
 
-/-- `if(!freeItem)`: a new block of four items -/
+/-- `if(!freeItem)`: a new block of `per c.k` items -/
 def allocBlock (st : State) (c : Var) : State :=
-  (st.alloc 4).setNode c { st.nodes c with free := newSlots c.k st.next, blocks := st.next :: (st.nodes c).blocks }
+  (st.alloc (st.per.f c.k)).setNode c
+    { st.nodes c with free := newSlots (st.per.f c.k) c.k st.next, blocks := st.next :: (st.nodes c).blocks }
 
 /-- pop the head of the free list, construct the members there, link the item at position pos -/
 def useSlot (st : State) (c : Var) (pos : Nat) (it : Item) (rest : List Item)
